@@ -125,7 +125,7 @@ def realign_inputs(draw, min_records=1, max_records=14, max_ln=12, max_chroms=1)
 
 
 def run_realign(case, d, platform=None, cores=None, batch=None, sub="out.gaf", gaf_name="in.gaf", gz_gaf=None,
-                gfa_name="g.gfa", recorder=None):
+                gfa_name="g.gfa", recorder=None, via="api"):
     """Run the real run_realign (in-process). platform: a fakemp.Platform replacing realign.mp, or None for
     real processes. Returns (call result, output text or None)."""
     import gaftools.cli.realign as R
@@ -152,9 +152,12 @@ def run_realign(case, d, platform=None, cores=None, batch=None, sub="out.gaf", g
     if platform is not None:
         R.mp = platform
     try:
+        ncores = cores if cores is not None else case.get("cores", 1)
         try:
-            res = core.call(R.run_realign, gaf_path, os.path.join(d, gfa_name), fa, out,
-                            cores if cores is not None else case.get("cores", 1))
+            if via == "cli":
+                res = core.cli(["realign", gaf_path, os.path.join(d, gfa_name), fa, "-o", out, "-c", ncores])
+            else:
+                res = core.call(R.run_realign, gaf_path, os.path.join(d, gfa_name), fa, out, ncores)
         except fakemp.Hang:
             res = ("hang", None)
     finally:
